@@ -278,4 +278,20 @@ theorem clientCheckpoint_sound (cv : Crypto) (key : PubKey) (kh : Bytes → Nat)
         simp only at hname hver
         exact ⟨hp, horigin', s, hmem, by rw [horigin']; exact hname.symm, by rw [horigin']; exact hver⟩
 
+/-! ### a collision-free hash function for the non-vacuity examples: the free term algebra -/
+namespace Demo
+
+inductive T where
+  | leaf (b : Bytes)
+  | node (a b : T)
+  | empty
+deriving DecidableEq
+
+def thf : HashFn T := ⟨T.leaf, T.node, T.empty⟩
+
+theorem thf_leafInj : LeafInj thf := fun a b h => by cases h; rfl
+theorem thf_nodeInj : NodeInj thf.node := fun a b c d h => by cases h; exact ⟨rfl, rfl⟩
+
+end Demo
+
 end ClientV
